@@ -968,6 +968,46 @@ def _sites_of(ex):
         tb = tb.tb_next
     return out
 
+def err_to_record(e, eid=0):
+    """a real error object -> the wire record of the attributes rendering reads (None: a class
+    whose rendering methods are not the modelled ones)"""
+    from pybtex.exceptions import PybtexError
+    from pybtex.scanner import PybtexSyntaxError, TokenRequired
+    from pybtex.auxfile import AuxDataError
+    f = e.filename
+    fn = [] if f is None else ([0, f] if isinstance(f, str) else [1])
+    t = type(e)
+    if len(e.args) != 1 or not isinstance(e.args[0], str):
+        return None
+    msg = e.args[0]
+    if isinstance(e, AuxDataError):
+        if t.__str__ is not AuxDataError.__str__ or t.get_context is not AuxDataError.get_context:
+            return None
+        return [eid, msg, fn, [2, opt(e.context.lineno)], [3, opt(e.context.line)]]
+    if isinstance(e, PybtexSyntaxError):
+        if t.__str__ is not PybtexSyntaxError.__str__:
+            return None
+        kind = [1, e.error_type, opt(e.lineno)]
+        if isinstance(e, TokenRequired):
+            if t.get_context is not TokenRequired.get_context:
+                return None
+            info = e.error_context_info
+            if len(info) == 2:
+                if info[0] != e.lineno:
+                    return None
+                return [eid, msg, fn, kind, [1, e.parser.text, opt(info[0]), info[1]]]
+            if type(e.parser).__name__ != 'LowLevelParser':
+                return None
+            return [eid, msg, fn, kind, [2, e.parser.text, opt(info[0]), info[2]]]
+        if t.get_context is not PybtexError.get_context:
+            return None
+        return [eid, msg, fn, kind, [0]]
+    if t.__str__ is not Exception.__str__ or t.get_context is not PybtexError.get_context or t.get_filename is not PybtexError.get_filename:
+        return None
+    return [eid, msg, fn, [0], [0]]
+
+REAL_ERRORS = []
+
 def three_modes(thunk):
     """run one piece of user input under capture / non-strict / strict; return (message or None, sites)"""
     from pybtex.exceptions import PybtexError
@@ -1001,6 +1041,8 @@ def three_modes(thunk):
         return None, sites          # a foreign exception is another property's business (C10/C15/C20)
     rend = []
     for e in list(L) + [x for x in (fc, fn_, fs) if x is not None and not any(x is y for y in L)]:
+        if isinstance(e, PybtexError) and len(REAL_ERRORS) < 20000:
+            REAL_ERRORS.append(e)
         if not isinstance(e, PybtexError):
             return 'a reported problem is not a pybtex error: %r' % (e,), sites
         try:
@@ -1011,6 +1053,20 @@ def three_modes(thunk):
                 rend.append(r)
         except Exception as ex:
             return 'the reported error %s(%r) cannot be rendered: %s' % (type(e).__name__, e.args, type(ex).__name__), sites
+    # premises of the theorems scanner_errors_render / bib_ctx_wellformed on the real error objects
+    from pybtex.scanner import TokenRequired
+    for e in list(L) + [x for x in (fc, fn_, fs) if x is not None]:
+        if isinstance(e, TokenRequired):
+            info = e.error_context_info
+            text = e.parser.text
+            if len(info) == 3:
+                st, ln, pos = info
+                if not (st is not None and 0 <= st < pos <= len(text)):
+                    return 'TokenRequired of the .bib parser with command_start=%r pos=%r len=%d: premise of bib_ctx_wellformed not met' % (st, pos, len(text)), sites
+            elif len(info) == 2:
+                ln, pos = info
+                if not (0 <= pos <= len(text) and (ln is None or 1 <= ln <= len(text.splitlines(True)))):
+                    return 'TokenRequired with lineno=%r pos=%r outside the text (%d lines)' % (ln, pos, len(text.splitlines(True))), sites
     want = ''.join(r + '\n' for r in rend)
     if outn != want:
         return 'non-strict mode printed %r but capture mode collected %r' % (outn, rend), sites
@@ -1293,6 +1349,42 @@ def extra_checks(ck, tier, rng):
            'info': {'sites_total': len(sites), 'sites_raised_from_in_this_run': len(covered),
                     'sites_not_reached': ['%s:%d %s' % (s[0], s[1], s[3]) for s in sites if s not in covered]}}
     shutil.rmtree(os.path.join(ck.rundir, 'inputs'), ignore_errors=True)
+
+    # 4b. the real error objects seen above, through the model: same renderability (verdict),
+    #     same text (information)
+    from pybtex.errors import format_error as _fe
+    recs, texts, skipped = [], [], 0
+    seen_r = set()
+    for e in REAL_ERRORS:
+        try:
+            r = err_to_record(e)
+        except Exception:
+            r = None
+        if r is None:
+            skipped += 1
+            continue
+        r = norm(r)
+        k = sx(r)
+        if k in seen_r:
+            continue
+        seen_r.add(k)
+        recs.append(r)
+        texts.append(call_impl_noerr(_fe, e, 'ERROR: '))
+    del REAL_ERRORS[:]
+    fails, same = [], 0
+    try:
+        mo = ck.model.run([(1, [r, norm('ERROR: ')]) for r in recs], ck.rundir)
+        for r, m, t in zip(recs, mo, texts):
+            if m[:1] != t[:1]:
+                d = ('real error %r: model says %s, implementation %s' % (describe_err(r), 'renders' if m[0] == 0 else 'does not render', 'renders' if t[0] == 0 else 'does not render'))
+                if not (r[2] == [1] and m[:1] == [2] and t[:1] == [2]):
+                    fails.append((str(describe_err(r))[:300], d, t[0] != 0))
+            elif m == t:
+                same += 1
+    except Exception as ex:
+        fails.append(('model runner', repr(ex), False))
+    yield {'name': 'real_errors_through_model', 'evaluations': len(recs), 'failures': fails[:5],
+           'info': {'distinct_real_error_objects': len(recs), 'identical_text': same, 'not_modelled_classes_skipped': skipped}}
 
     # 5. information only (no alarm): how often the model's rendering is character-for-character
     #    the implementation's (the verdict compares renderability only, so that a re-worded
